@@ -96,13 +96,19 @@ G_ASSUMPTIONS = [
 ]
 
 
-def g_prop(explanation, features=None, uncovered=None, extra_assumptions=()):
+KT_ASSUMPTIONS = ["KT: kernels are lifted verbatim from sylvia-derive (match arms / function bodies are the repository's bytes); dropped by lifting: the scrutinee expression becomes a &str parameter, Error::new/.span() become a shim, parse_quote!{X} becomes stringify!(X); strings longer than 24 bytes cannot equal any literal in the tables (stated, not machine-checked)"]
+
+
+def g_prop(explanation, features=None, uncovered=None, extra_assumptions=(), kernels=False):
     def f(prop, tier, seed):
         obs, infos = K.run_property(prop, tier, features)
+        if kernels:
+            o2, i2 = K.run_kernels(prop)
+            obs.extend(o2); infos.append(i2)
         if not obs:
             raise Undecided("no obligation registered for %s in tier %s" % (prop, tier))
         fixtures = sorted(set(o.extra.get("fixture", "") for o in obs if o.extra.get("fixture")))
-        return dict(obs=obs, infos=infos, level="other", assumptions=G_ASSUMPTIONS + list(extra_assumptions), explanation=explanation, fixtures=fixtures, uncovered=uncovered or [])
+        return dict(obs=obs, infos=infos, level="other", assumptions=G_ASSUMPTIONS + (KT_ASSUMPTIONS if kernels else []) + list(extra_assumptions), explanation=explanation, fixtures=fixtures, uncovered=uncovered or [])
     return f
 
 
@@ -124,8 +130,10 @@ REGISTRY = {
     "C03": g_prop("C03 on the fixture corpus: (i) published name lists equal the wire names, (ii) the contract-level wrapper serialises exactly as the wrapped part (recording Serializer), (iii) wrapper dispatch routes each part's message to that part's handler; exact set of wrapper parts (wildcard-free match).",
                   uncovered=["the wrapper's hand-written Deserialize (accept iff exactly one part accepts; error text; no panic): CBMC does not finish on serde_cw_value's BTreeMap (DESIGN.md §2.4)"]),
     "C04": g_prop("C04 on the fixture corpus, as a chain: entry point of kind K takes the K wrapper type (fn-pointer coercion), which is ContractApi's K type; its variants wrap only the parts' K messages; each K message has exactly the K-annotated methods as variants; dispatching any of them bumps only a K handler counter; a K1-only name is rejected by the K2 message type.",
-                  uncovered=["the multitest Contract impl (contract/mt.rs) sits behind cw_multi_test"]),
+                  uncovered=["the multitest Contract impl (contract/mt.rs) sits behind cw_multi_test"], kernels=True),
     "C05": c05, "C11": c11,
+    "C06": g_prop("C06: (KT) the override-kind table and the sv::msg kind table, lifted verbatim from sylvia-derive, are proved equal on every ASCII string up to 24 bytes, and the entry-point / message / accessor names are the documented ones and injective on kinds; (T) on the fixture corpus every non-overridden entry point exists with the documented signature taking the kind's wrapper type; (G) each emitted entry point builds the contract with new(), dispatches the message with the given deps/env/info and returns the dispatch outcome.",
+                  uncovered=["absence of an overridden entry point is not expressible as an obligation on compiled code", "override subsets other than those in the fixture corpus"], kernels=True),
     "C10": g_prop("C10: Kani proves on the REAL functions of sylvia/src/types.rs and sylvia/src/builder/instantiate.rs (symbolic scalars, 1-2 byte payloads) that ExecutorBuilder::{new, with_funds, build}, InstantiateBuilder::{new, with_label, with_admin, with_funds, build, build2} and Remote::{new, borrowed, as_ref, executor, update_admin, clear_admin} carry every input to the corresponding output field and leave the others unchanged (label empty when unset); on the fixture corpus the generated Executor methods return a ready builder whose body is the canonical serialisation of the same ExecMsg variant.",
                   uncovered=["querier helpers (smart query round trip needs a JSON parser)", "funds beyond one coin; addresses beyond 2 bytes"]),
     "C20": g_prop("C20: Kani proves on the REAL Remote<T> (sylvia/src/types.rs:370-460) for T in {contract, dyn Interface<Error=E>, ()} and both constructors: it serialises (serde data model) as a struct named Remote with exactly one non-skipped member `addr` whose str has the pointer and length of the address (so every byte is the address's, for all addresses up to 6 bytes, without a content loop); a scripted {addr: s} decodes to a handle with as_ref() == s; schema_name() is `Remote` for every T; the three trait impls exist for an unsized T with no impls.",
